@@ -50,9 +50,9 @@ func intTuples(vals []int, k int) [][]int {
 // c05Bigs: component values at which width- and magnitude-dependent shortcuts change behaviour.
 func c05Bigs(lvl int) []int {
 	if lvl > 0 {
-		return []int{10, 65535, 4294967295}
+		return []int{10, 65535, 65536, 4294967295, 4294967296}
 	}
-	return []int{10, 65535}
+	return []int{10, 65535, 65536}
 }
 
 // bigTuples: every k-tuple over {0,1} with exactly one position replaced by a big value.
@@ -64,6 +64,18 @@ func bigTuples(k, lvl int) [][]int {
 				u := append(append(append([]int{}, t[:pos]...), b), t[pos:]...)
 				out = append(out, u)
 			}
+		}
+	}
+	return out
+}
+
+func uniqInts(a []int) []int {
+	seen := map[int]bool{}
+	var out []int
+	for _, x := range a {
+		if !seen[x] {
+			seen[x] = true
+			out = append(out, x)
 		}
 	}
 	return out
@@ -314,6 +326,7 @@ func c05Probes(name string, lvl int) (strs []string, cores [][]int, pre []bool) 
 			grid = append(grid, b-1, b, b+1)
 		}
 	}
+	grid = uniqInts(grid)
 	var preSuffix []string
 	switch name {
 	case "npm", "cargo", "hex", "conan":
@@ -543,7 +556,7 @@ func init() {
 				"dont_care_points":              r.Counters["dont_care"],
 			}
 		},
-		Rule:        "for each of npm, cargo, composer, conan, gem, hex, pypi, nuget, maven: every documented shorthand construct x every base tuple over {0,1,2} (thorough {0,1,2,9}) of every documented arity, plus every tuple over {0,1} with one component replaced by 10 or 65535 (thorough also 4294967295) (zeros in leading positions included; pre-release bases where documented) is parsed and evaluated on a probe grid {0,1,2,3,9,10,11,65534,65535,65536}^3 (thorough {0,1,2,3,8,9,10,11,65534..65536,4294967294..4294967296}^3) as release / lowest / middle pre-release plus 2- and 4-component probes; the expected membership is the documented interval [lo,hi) evaluated with the ecosystem's own Compare. Don't-care (counted, not checked): pre-releases of an exclusive upper bound where the documentation states no pre-release floor (cargo, composer, conan, gem, hex, pypi). Composer probes are stable versions, pypi probes final or post releases. All ranges of a unit are parsed before any is evaluated. distinct_nontrivial = evaluations whose expected membership is true.",
+		Rule:        "for each of npm, cargo, composer, conan, gem, hex, pypi, nuget, maven: every documented shorthand construct x every base tuple over {0,1,2} (thorough {0,1,2,9}) of every documented arity, plus every tuple over {0,1} with one component replaced by 10, 65535 or 65536 (thorough also 4294967295, 4294967296) (zeros in leading positions included; pre-release bases where documented) is parsed and evaluated on a probe grid {0,1,2,3,9,10,11,65534..65537}^3 (thorough {0,1,2,3,8,9,10,11,65534..65537,4294967294..4294967297}^3) as release / lowest / middle pre-release plus 2- and 4-component probes; the expected membership is the documented interval [lo,hi) evaluated with the ecosystem's own Compare. Don't-care (counted, not checked): pre-releases of an exclusive upper bound where the documentation states no pre-release floor (cargo, composer, conan, gem, hex, pypi). Composer probes are stable versions, pypi probes final or post releases. All ranges of a unit are parsed before any is evaluated. distinct_nontrivial = evaluations whose expected membership is true.",
 		Assumptions: []string{"the desugaring table is written from each ecosystem's documentation as restated in the property (npm ^1.2.3 = >=1.2.3 <2.0.0-0, gem ~>1.2.3 = >=1.2.3 <1.3, hex ~>2.1 = >=2.1.0 <3.0.0, pypi ~=2.2 = >=2.2 <3.0, ...)", "maven bare versions (soft requirements) are not claimed"},
 	})
 }
